@@ -224,6 +224,10 @@ static void apply(const struct op *o, struct mstate *m) {
             if (!have[w]) { have[w] = 1; unsigned cand[R_NW]; int nc = 0; uint64_t ps = 0xA3B1 + (uint64_t)w;
                 for (unsigned i = 0; i < R_NW; i++) if (ref_recognise(lb, RL[la].w[i]) >= 0) cand[nc++] = i;
                 for (int attempt = 0; attempt < 20000 && nc > 16; attempt++) { unsigned c[16]; for (int i = 1; i < 16; i++) c[i] = cand[prng(&ps) % (unsigned)nc]; if (c[2] & 1) continue; c[0] = 0; c[0] = ref_eval(c); int ok = 0; for (int i = 0; i < nc; i++) if (cand[i] == c[0]) ok = 1; if (!ok) continue; ref_phrase_from_idx(c, la, amb[w], 0); break; } }
+            /* what an explicit decode in either of the two languages did just before must not tilt the automatic decision */
+            for (int pre = 0; pre < 2 && !m->armed; pre++) { polyseed_data *dp = NULL;      /* (not in an armed state: the explicit decode would consume the fault) */ int sp = polyseed_decode_explicit(amb[w], 0, polyseed_get_lang(pre ? lb : la), &dp); if (sp == POLYSEED_OK) polyseed_free(dp);
+                polyseed_data *da = (polyseed_data *)(uintptr_t)0xBEEF; const polyseed_lang *lq = NULL; int sa = polyseed_decode(amb[w], 0, &lq, &da); if (sa == POLYSEED_OK) polyseed_free(da);
+                if (sa != ST_MULT_LANG) { snprintf(k, sizeof k, "c13:status:%s:after-explicit", o->name); BADV(k, "%s right after decode_explicit in %s returned %d, model %d", o->name, RL[pre ? lb : la].code, sa, ST_MULT_LANG); } }
             st = polyseed_decode(amb[w], 0, &lo, &d); want = ref_decode(amb[w], 0, -1, m->mask, 0, CAP, NULL, NULL);
             if (want != ST_MULT_LANG) BADV("c13:model-internal", "ambiguous phrase is not ambiguous for the model (%d)", want);
             { polyseed_data *d2 = (polyseed_data *)(uintptr_t)0xBEEF; int st2 = polyseed_decode(amb[w], 0, NULL, &d2);      /* the language output is optional on every exit */
@@ -518,7 +522,7 @@ int main(int argc, char **argv) {
     fixpoint = (nf == 0 && !capped && !T->timed_out && !T->nviol);
     /* output */
     struct res *r = calloc(1, sizeof *r);
-    r->cases = NN; r->calls = T->transitions + T->battery_calls; r->validated = T->transitions; r->timed_out = !fixpoint && !T->nviol;
+    r->cases = NN; r->calls = T->transitions + T->battery_calls; r->validated = T->transitions; r->timed_out = !fixpoint;      /* a search cut short by a violation (possibly one that another property's check reports) is not complete */
     r->nviol = 0; r->nviol_total = (uint64_t)T->nviol;
     for (int i = 0; i < T->nviol && i < MAXV; i++) r->v[r->nviol++] = T->v[i];
     /* samples: three histories */
